@@ -229,7 +229,7 @@ def _walk_lark_tree(op, *, data_def=None) -> data_algebra.expr_rep.Term:
                         built = None
                         try:
                             built = getattr(args[0], op_name)(*args[1:])
-                        except (AssertionError, TypeError):
+                        except AssertionError:
                             # the plain function form stays for names taking any number of arguments and for None arguments
                             if (op_name not in _n_ary_function_names) and (
                                 not any(
@@ -238,6 +238,10 @@ def _walk_lark_tree(op, *, data_def=None) -> data_algebra.expr_rep.Term:
                                     for ai in args
                                 )
                             ):
+                                raise
+                        except TypeError:
+                            # the wrong number of arguments: only the n-ary names take it
+                            if op_name not in _n_ary_function_names:
                                 raise
                         if isinstance(built, data_algebra.expr_rep.PreTerm):
                             return built
